@@ -59,7 +59,7 @@ def slice(ctx: fw.Ctx) -> fw.Outcome:
             if t == "Song":
                 continue
             sec = "sync" if t == "SyncTrack" else "events" if t == "Events" else "instrument"
-            for _ in range(rng.choice([0, 1, 1, 2, 5, 5, 20, 45])):
+            for _ in range(rng.choice([0, 1, 1, 2, 5, 5, 20, 45, 120, 260])):
                 g, parsable_in = rng.choice(FOREIGN)
                 if sec in parsable_in:
                     continue  # parsable here by the documented format: not garbage for this section
